@@ -372,6 +372,47 @@ delegate!(secrecy::SecretBox<Vec<u8>>, Vec<u8>, "secrecy_10::SecretBox<{}>", |x|
     s.expose_secret()
 });
 
+
+// ---- the dynamic value type as a component of static wrappers (Vec<CqlValue>, HashMap<String, CqlValue>, ...)
+/// A value of `t` with content at every level (one element per collection, every tuple/UDT field set).
+pub fn witness_value(t: &Type) -> Value {
+    match t {
+        Type::Native(n) => values::native_alphabet(*n, false)[0].clone(),
+        Type::List(e) => Value::List(vec![witness_value(e)]),
+        Type::Set(e) => Value::Set(vec![witness_value(e)]),
+        Type::Map(k, v) => Value::Map(vec![(witness_value(k), witness_value(v))]),
+        Type::Tuple(ts) => Value::Tuple(ts.iter().map(witness_value).collect()),
+        Type::Udt { fields, .. } => Value::Udt(fields.iter().map(|(n, t)| (n.clone(), witness_value(t))).collect()),
+        Type::Vector(e, d) => Value::Vector((0..*d).map(|_| witness_value(e)).collect()),
+    }
+}
+
+impl Carrier for scylla_cql_core::value::CqlValue {
+    fn name() -> String {
+        "CqlValue".to_string()
+    }
+    fn home_types() -> Vec<Type> {
+        let mut v: Vec<Type> = Native::ALL.iter().map(|n| nat(*n)).collect();
+        for s in ["list<int>", "set<text>", "map<text,int>", "tuple<int,text>", "udt:ks.u2<a:int,b:text>", "vector<text,2>", "vector<int,2>", "list<tuple<int,text>>"] {
+            v.push(refv::parse_type(s).unwrap());
+        }
+        v
+    }
+    /// the dynamic type takes the shape of the column: always a documented pairing
+    fn rel_ser(_t: &Type) -> Rel {
+        Rel::Accept
+    }
+    fn from_ref(t: &Type, v: &Value) -> Option<Self> {
+        to_cql(t, v)
+    }
+    fn to_ref(&self, _t: &Type) -> Value {
+        from_cql(self).unwrap_or(Value::Null)
+    }
+    fn witness(t: &Type) -> Self {
+        to_cql(t, &witness_value(t)).unwrap_or(scylla_cql_core::value::CqlValue::Empty)
+    }
+}
+
 // ---- generic wrappers
 macro_rules! transparent {
     ($outer:ident, $fmt:expr, |$x:ident| $wrap:expr, |$s:ident| $get:expr) => {
@@ -1163,7 +1204,7 @@ pub fn table() -> Vec<Entry> {
     fam_all!(v; i8, i16, i32, i64, f32, f64, bool, String, Box<str>, Arc<str>, Vec<u8>, Bytes, IpAddr, uuid::Uuid, CqlTimeuuid, Counter,
         CqlDate, CqlTime, CqlTimestamp, CqlDuration, CqlVarint, CqlDecimal,
         chrono::NaiveDate, chrono::NaiveTime, chrono::DateTime<chrono::Utc>, time::Date, time::Time, time::OffsetDateTime,
-        num_bigint::BigInt, num_bigint_03::BigInt, bigdecimal::BigDecimal);
+        num_bigint::BigInt, num_bigint_03::BigInt, bigdecimal::BigDecimal, scylla_cql_core::value::CqlValue);
     fam_deep!(v; i32, String, CqlVarint, f64, Vec<u8>);
     fam_ord!(v; i8, i16, i32, i64, bool, String, Vec<u8>, Bytes, IpAddr, uuid::Uuid, CqlTimeuuid, CqlTimestamp, Counter,
         chrono::NaiveDate, chrono::NaiveTime, chrono::DateTime<chrono::Utc>, time::Date, time::Time, time::OffsetDateTime,
